@@ -50,6 +50,16 @@ def run(rep):
         return " del/" in op and "bad-op" not in impl
 
     bad_spec, bad_model = V.correspondence(rep, "hash", rows, stats, nontrivial=nontrivial)
+    # A known finding is recorded the way the MODEL describes it (the defining range loop stops
+    # with an error). If the real code fails the property on that input in another way, that is
+    # not the recorded finding: e.g. BindlistInstr swallowing the error again (fix C14-03
+    # reverted) makes the loop repeat the first key silently.
+    for op, impl, model, spec in rows:
+        if rep.match_known(op) and impl != spec and impl != model:
+            rep.violation("failing-input", {"channel": "hash", "ops": [op], "spec_requires": spec, "impl_did": impl,
+                                            "model_did": model,
+                                            "note": "fails differently from the recorded known finding (which is what the model answers)"})
+            bad_spec = list(bad_spec) + [(op, impl, model, spec)]
     rep.coverage["exhaustive"] = True
     rep.coverage["rule"] = ("every history of set/del over the universes uA (symbol + int with the symbol's number, 'x' + 120 + [120]) and uB "
                             "(string + int with its FNV-32 code, symbol, [symbol], [string], char) up to the length recorded in the distribution, "
